@@ -3001,4 +3001,23 @@ theorem ne_run (h : List SetEv) : ∀ (s : ASet), MInv s → NE s → HistMem s.
       have n1 := (setPolicy_frame s p sa).1
       exact ih (setPolicy s p sa) (minv_setPolicy p sa hs) (ne_setPolicy p sa hne) (by rw [n1]; exact hm)
 
+
+/-- the hypothesis-free group invariant holds after every history that only names members -/
+theorem gminv_after (n : Nat) (tol : Int) (offs : Nat → Int) (p : Policy) (fi : Int)
+    (alive0 : Nat → Nat → Bool) (snap0 : Nat → Nat → Option Int) (h : List GEv) (hm : GHistMem n h) :
+    GMInv (runG (gNew n tol offs p fi alive0 snap0).1 h) := by
+  obtain ⟨h0, n0⟩ := gminv_gNew n tol offs p fi alive0 snap0
+  exact gminv_run h _ h0 (by rw [n0]; exact hm)
+
+theorem runSet_tol (h : List SetEv) : ∀ (s0 : ASet), (runSet s0 h).tol = s0.tol := by
+  induction h with
+  | nil => intro s0; rfl
+  | cons e es ih =>
+    intro s0
+    show (runSet (stepSet s0 e) es).tol = s0.tol
+    rw [ih]
+    cases e with
+    | notify d a sn => exact (notify_frame s0 d a sn).2.1
+    | setPolicy p sa => exact (setPolicy_frame s0 p sa).2.1
+
 end DaeVerif.C15
